@@ -245,6 +245,26 @@ fn main() {
     for (k, (label, text)) in infinite_type_texts().into_iter().chain(arity_texts()).chain(illformed_decl_texts()).chain(diverging_texts()).chain(literal_edge_texts()).chain(default_binding_texts()).chain(default_context_texts()).chain(namespace_texts()).chain(assignment_texts()).enumerate() {
         jobs.push(Job { label, text, model: k % 25 == 0 });
     }
+    // editing states: balanced skeletons, truncated identifiers, shuffled items, impl / extend headers
+    for (ci, (name, text)) in corpus.iter().enumerate() {
+        let (bs, ts) = if quick {
+            (balanced_states(text, 11, ci), identifier_truncations(text, false, 13, ci))
+        } else {
+            (balanced_states(text, 1, 0), identifier_truncations(text, true, 1, 0))
+        };
+        for t in bs {
+            jobs.push(Job { label: format!("edit:balanced:{name}"), text: t, model: false });
+        }
+        for t in ts {
+            jobs.push(Job { label: format!("edit:truncated-ident:{name}"), text: t, model: false });
+        }
+        for t in item_shuffles(&mut ctx.rng, text, if quick { 1 } else { 12 }) {
+            jobs.push(Job { label: format!("edit:items-shuffled:{name}"), text: t, model: false });
+        }
+    }
+    for (k, (label, text)) in impl_header_texts().into_iter().enumerate() {
+        jobs.push(Job { label, text, model: k % 40 == 0 });
+    }
     // dot completion behind every kind of receiver: in the stream (every offset, worker processes) …
     let compl = completion_texts();
     for (label, text, _, _, _) in &compl {
@@ -339,7 +359,7 @@ fn main() {
     let mut seen: BTreeMap<(String, String), u64> = BTreeMap::new();
     let mut queries = 0u64;
     for (j, r) in jobs.iter().zip(results) {
-        let kind = j.label.split(':').take(if j.label.starts_with("mut") || j.label.starts_with("inftype") || j.label.starts_with("arity") || j.label.starts_with("illdecl") || j.label.starts_with("diverge") || j.label.starts_with("litedge") || j.label.starts_with("defbind") || j.label.starts_with("defctx") || j.label.starts_with("nsuse") || j.label.starts_with("assign") || j.label.starts_with("complete") { 2 } else { 1 }).collect::<Vec<_>>().join(":");
+        let kind = j.label.split(':').take(if j.label.starts_with("mut") || j.label.starts_with("inftype") || j.label.starts_with("arity") || j.label.starts_with("illdecl") || j.label.starts_with("diverge") || j.label.starts_with("litedge") || j.label.starts_with("defbind") || j.label.starts_with("edit") || j.label.starts_with("implhdr") || j.label.starts_with("defctx") || j.label.starts_with("nsuse") || j.label.starts_with("assign") || j.label.starts_with("complete") { 2 } else { 1 }).collect::<Vec<_>>().join(":");
         ctx.count(&format!("text:{kind}"));
         if !j.text.is_ascii() {
             ctx.count("text:non-ascii");
